@@ -16,6 +16,7 @@ func init() {
 			"[version][profile][compat][level][111111 lengthSizeMinusOne(2)][111 numSPS(5)] {BE16 length, NAL unit}* [numPPS(8)] {BE16 length, NAL unit}* with the reserved bits set, every count and length " +
 			"prefix derived from what follows it; UnmarshalBinary run on that ISO layout returns the same fields and parameter sets, masks the reserved bits and stays in bounds; C12.sample - samples are " +
 			"{NALUnitLength(8*(lengthSizeMinusOne+1) bits BE), NAL unit}* both ways for each of the four length sizes. The per-element loop bodies are the same SSA code for every iteration; counts above 2 follow by that uniformity. " +
+			"C12.alias - no []byte result aliases storage that outlives the call (receiver fields, package variables, pooled buffers): an item handed out earlier stays what it was. " +
 			"Not decided: equality of parameter-set payload bytes as data; accumulation when one record object is unmarshalled twice (outside the property).",
 		Assume: []string{"layout tables transcribed from ISO/IEC 14496-15 5.2.4.1.1, 5.3.4.2 and 14496-10 7.3.1", "field domains: nal_ref_idc 2 bits, nal_unit_type 5 bits, profile/compat/level 8 bits, NAL units of 1..65535 bytes in a record"},
 		Run:    runC12,
@@ -23,6 +24,7 @@ func init() {
 }
 
 func runC12(c *Ctx) {
+	checkOwnsBytes(c, "C12.alias", "avc")
 	checkFreshResult(c, "C12.record", "avc", "(*AVCSample).MarshalBinary", 0)
 	checkFreshResult(c, "C12.record", "avc", "(*AVCDecoderConfigurationRecord).MarshalBinary", 0)
 	checkFreshResult(c, "C12.record", "avc", "(*NALU).MarshalBinary", 0)
